@@ -17,7 +17,8 @@ RULE = ('peptides of length 1..10 with pre-existing residue/terminal modificatio
         'multisets; in append/overwrite mode: residues kept, changes confined to matched sites, input form present, no '
         'form twice. signature = (function, mode, #rules, target kinds, terminal rules, max_mods, pre-modified); '
         'non-trivial = at least one matched site')
-ASSUMPTIONS = ['purely zero-width targets are not generated (they have no matched residue)',
+ASSUMPTIONS = ['a purely zero-width target (look-around only) selects the residue that ends at the matched boundary - the '
+               'library\'s reading, the same as for cleavage sites; the boundary in front of the first residue selects nothing',
                'rules of one call are generated with pairwise disjoint matched sites']
 LEVEL_TEXT = ('Every apply_static_mods/apply_variable_mods execution is compared with an independent site matcher and an '
               'exhaustive subset enumeration; held on the executions observed.')
@@ -29,13 +30,23 @@ TARGETS = ['P', 'K', 'S', 'T', 'E', 'C', 'D', 'A', '[ST]', '(?<=P)E', 'K(?!P)', 
 MODVALS = ['Phospho', 'Acetyl', 'Oxidation', 1.5, 2, 'Methyl', 79.966, 'Carbamidomethyl', -18]
 
 
+ZERO_TARGETS = ['(?=P)', '(?<=K)', '(?<=[ST])(?!P)', '(?=[DE])', '(?<=^.)']
+
+
 def sites_of(seq: str, pattern: str):
+    """consuming match starting at i -> residue i; zero-width match at boundary i -> the residue that ends there
+    (i - 1), none for the boundary in front of the first residue"""
     rx = re.compile(pattern)
     out = []
-    for i in range(len(seq)):
+    for i in range(len(seq) + 1):
         m = rx.match(seq, i)
-        if m is not None and m.end() > m.start():
-            out.append(i)
+        if m is None:
+            continue
+        if m.end() > m.start():
+            if i < len(seq):
+                out.append(i)
+        elif i >= 1 and pattern in ZERO_TARGETS:
+            out.append(i - 1)
     return out
 
 
@@ -69,6 +80,17 @@ def install(ctx, st: State):
     return pt
 
 
+def as_input(pt, rng, text):
+    """the peptide as text, as a parsed annotation, or as the annotation a digest/slice/pop_internal_mod hands over (an
+    empty residue-modification dictionary instead of None)"""
+    r = rng.random()
+    if r < 0.55:
+        return text
+    if r < 0.8:
+        return pt.parse(text)
+    return rp.hollowed(pt, text)
+
+
 def base_fields(p: Pep) -> dict:
     return rp.expected_fields(p)
 
@@ -83,10 +105,11 @@ def gen_rules(rng, seq, n_rules, groups=False):
     """{pattern: mods | [groups]}; variable rules (groups) have disjoint sites, static rules may overlap"""
     rules, used = {}, set()
     offered_at = {}      # site -> groups already offered there by earlier variable rules
-    for pat in rng.sample(TARGETS, len(TARGETS)):
+    pool = TARGETS + (ZERO_TARGETS if rng.random() < 0.3 else [])
+    for pat in rng.sample(pool, len(pool)):
         if len(rules) >= n_rules:
             break
-        if is_zero_width_somewhere(seq, pat):
+        if pat not in ZERO_TARGETS and is_zero_width_somewhere(seq, pat):
             continue
         s = set(sites_of(seq, pat))
         if s & used and rng.random() < (0.6 if groups else 0.5):
@@ -205,7 +228,7 @@ def run_static(ctx, st, pt, p: Pep):
     try:
         sp = (spelled(pt, rng, rules, False) or None, spelled(pt, rng, nspec, False), spelled(pt, rng, cspec, False))
         case['as_passed'] = repr(sp)
-        pt.apply_static_mods(text if rng.random() < 0.6 else pt.parse(text), sp[0], sp[1], sp[2], mode, rt)
+        pt.apply_static_mods(as_input(pt, rng, text), sp[0], sp[1], sp[2], mode, rt)
     except Exception as ex:
         ctx.decided()
         ctx.violation('apply_static_mods-raises', {'case': {k: v for k, v in case.items() if k != 'pep'},
@@ -331,7 +354,7 @@ def run_variable(ctx, st, pt, p: Pep):
     try:
         sp = (spelled(pt, rng, rules, True) or None, spelled(pt, rng, nspec, True), spelled(pt, rng, cspec, True))
         case['as_passed'] = repr(sp)
-        pt.apply_variable_mods(text if rng.random() < 0.6 else pt.parse(text), sp[0], max_mods, sp[1], sp[2], mode, rt)
+        pt.apply_variable_mods(as_input(pt, rng, text), sp[0], max_mods, sp[1], sp[2], mode, rt)
     except Exception as ex:
         ctx.decided()
         ctx.violation('apply_variable_mods-raises', {'case': {k: v for k, v in case.items() if k != 'pep'},
